@@ -36,8 +36,9 @@ def gen(rng, tier, i):
         others = [x for x in names if x != me] or [me]
         if r < 0.25: return 'hb %s %d' % (rng.choice(others), rng.choice((0, 0, 1, 1, 2, 3)))
         if r < 0.45: return 'hb me %d' % rng.choice((0, 1, 2, 3, 5)) if inside else 'hb %s %d' % (rng.choice(names), rng.choice((0, 1, 2, 3)))
-        if r < 0.6: return 'dest %s' % rng.choice(others)
-        if r < 0.7 and inside: return 'dest me'
+        # reload_object() switches the heart beat off like a destruct does (the object lives on without its tag)
+        if r < 0.6: return '%s %s' % ('dest' if rng.random() < 0.75 else 'reload', rng.choice(others))
+        if r < 0.7 and inside: return 'dest me' if rng.random() < 0.7 else 'reload me'
         if r < 0.85:
             extra[0] += 1
             t = 'x%d' % extra[0]
@@ -121,6 +122,9 @@ def check(plan, res):
                 k, inr = pos(e)
                 q = int(w[3][2:]) if w[3].startswith('q=') else 0
                 objs.setdefault(w[1], []).append(('set', k, inr, q, int(w[2])))
+            elif w[0] == 'RELOAD' and len(w) > 1:
+                k, inr = pos(e)
+                objs.setdefault(w[1], []).append(('set', k, inr, 0, 0))     # reload_object() = set_heart_beat(ob, 0); the object lives on
             elif w[0] in ('DEST', 'QUIT') and len(w) > 1:
                 k, inr = pos(e)
                 objs.setdefault(w[1], []).append(('gone', k, inr))
@@ -226,9 +230,9 @@ def summarize(plan, res):
     for e in res.events:
         if e.kind == 'R':
             w = e.rest.split(' ')
-            if w[0] in ('HB', 'HBSET', 'DEST', 'CLONED', 'ERR'):
+            if w[0] in ('HB', 'HBSET', 'DEST', 'RELOAD', 'CLONED', 'ERR'):
                 kinds.append(w[0][:3] + (w[1][:3] if w[0] != 'ERR' and len(w) > 1 else ''))
-                if w[0] in ('HBSET', 'DEST', 'CLONED') and e.cycle in tickc: inside += 1
+                if w[0] in ('HBSET', 'DEST', 'RELOAD', 'CLONED') and e.cycle in tickc: inside += 1
         elif e.kind == 'step' and ' tick ' in e.rest: kinds.append('|')
     st = res.stats()
     return {'nontrivial': inside > 0, 'abstract': hashlib.sha256(' '.join(kinds).encode()).hexdigest()[:16],
